@@ -201,3 +201,69 @@ Section CalTrackNI.
     - rewrite E, map_map. apply map_ext. intros r. reflexivity.
   Qed.
 End CalTrackNI.
+
+(* ------------------------------------------------------------------ daily data class: temperature of a meter day *)
+From V Require Import Model.Resample Model.TempAgg.
+
+Lemma temps_of_ni : forall a b : list frow, same_weather_frows a b -> temps_of a = temps_of b.
+Proof. intros a b H. exact H. Qed.
+
+Lemma stamps_ni : forall a b : list frow, same_weather_frows a b -> map f_stamp a = map f_stamp b.
+Proof.
+  intros a b H. unfold same_weather_frows in H.
+  assert (X : forall l : list frow, map f_stamp l = map fst (map (fun r => (f_stamp r, f_temp r)) l))
+    by (intros l; rewrite map_map; apply map_ext; reflexivity).
+  rewrite !X, H. reflexivity.
+Qed.
+
+(* index from the stamps of the frame: the whole stage is a function of weather and calendar *)
+Lemma daily_stage_ni_l : forall day_index tol (a b : list frow), same_weather_frows a b ->
+  daily_stage day_index tol a = daily_stage day_index tol b.
+Proof. intros day_index tol a b H. unfold daily_stage. rewrite (stamps_ni a b H), (temps_of_ni a b H). reflexivity. Qed.
+
+(* as coded: unchanged as long as the same rows carry a reading (scaled, shuffled among the readings, negated) *)
+Lemma daily_stage_as_coded_partial_l : forall fc tol (a b : list frow), same_weather_frows a b ->
+  same_usage_presence a b -> daily_stage_as_coded fc tol a = daily_stage_as_coded fc tol b.
+Proof.
+  intros fc tol a b H P. unfold daily_stage_as_coded. unfold same_usage_presence in P.
+  rewrite (stamps_ni a b H), (temps_of_ni a b H), P. reflexivity.
+Qed.
+
+(* the row of an index entry is the aggregate of the readings between it and its successor: whatever else the index
+   contains *)
+Lemma rows_for_entry : forall tol temps idx lo r, In (lo, r) (combine idx (rows_for tol idx temps)) ->
+  exists hi, next_in idx lo hi /\ r = agg (group tol lo hi temps).
+Proof.
+  intros tol temps. induction idx as [|x idx IH]; intros lo r H; [destruct H|].
+  cbn [rows_for combine] in H. destruct H as [H|H].
+  - inversion H; subst. exists (match idx with h :: _ => Some h | [] => None end). split; [|reflexivity].
+    exists [], idx. split; reflexivity.
+  - destruct (IH lo r H) as [hi [[pre [rest [E1 E2]]] E3]]. exists hi. split; [|exact E3].
+    exists (x :: pre), rest. split; [rewrite E1; reflexivity | exact E2].
+Qed.
+
+(* two meter-day indexes (with usage / without, or two null patterns): a day that is in both AND has the same successor
+   in both gets the same temperature row *)
+Lemma day_window_ni_l : forall tol temps idx idx' lo r r' hi,
+  NoDup idx -> NoDup idx' ->
+  In (lo, r) (day_temps tol idx temps) -> In (lo, r') (day_temps tol idx' temps) ->
+  next_in idx lo hi -> next_in idx' lo hi -> r = r'.
+Proof.
+  intros tol temps idx idx' lo r r' hi Hn Hn' H H' N N'.
+  destruct (rows_for_entry _ _ _ _ _ H) as [h1 [N1 E1]]. destruct (rows_for_entry _ _ _ _ _ H') as [h2 [N2 E2]].
+  assert (U : forall l h h', NoDup l -> next_in l lo h -> next_in l lo h' -> h = h').
+  { clear. intros l h h' Hn [p [q [E1 E2]]] [p' [q' [E1' E2']]]. subst h h'.
+    assert (X : p = p' /\ q = q').
+    { subst l. revert p' q' E1' Hn. induction p as [|a p IH]; intros p' q' E Hn.
+      - destruct p' as [|a' p']; cbn in E.
+        + inversion E. auto.
+        + inversion E; subst. exfalso. cbn in Hn. inversion Hn as [|? ? Hx _]. apply Hx. rewrite H1.
+          apply in_or_app. right. left. reflexivity.
+      - destruct p' as [|a' p']; cbn in E.
+        + inversion E; subst. exfalso. cbn in Hn. inversion Hn as [|? ? Hx _]. apply Hx.
+          apply in_or_app. right. left. reflexivity.
+        + inversion E; subst. cbn in Hn. inversion Hn as [|? ? _ Hn2].
+          destruct (IH p' q' H1 Hn2) as [-> ->]. auto. }
+    destruct X as [_ ->]. reflexivity. }
+  rewrite E1, E2, (U idx h1 hi Hn N1 N), (U idx' h2 hi Hn' N2 N'). reflexivity.
+Qed.
